@@ -621,6 +621,22 @@ def run(rep: C.Report) -> None:
     except Exception as e:  # noqa: BLE001
         rep.add(C.Ob("kernels", "E1 CrossHair", [], "", verdict=C.NOT_ENCODABLE, detail=f"{type(e).__name__}: {e}"))
     toplevel_default(rep)
+    # an acyclic library may nest the same template through an argument: the loop detector must not fire (shared lemma of C05
+    # Ob4, replayed here through expand() on nested documents)
+    try:
+        HL = os.path.join(C.VERIF, "harness", "C05_loop.py")
+        over = "\nimport C04_kernels as _K4\n" + "".join(f"\n\ndef replay_loop_{k}(*a):\n    return _K4.replay_nested_same_template()\n" for k in range(2, 7))
+        xh.check_harness(
+            rep,
+            HL,
+            {"^loop_": dict(name="Ob11 nesting the same template through an argument (numbered or named) is not a loop: the detector exempts repetitions that start at an argument-value frame", functions=["core.py:detect_expand_template_loop", "core.py:Wtp.expand (ARGVAL- frames)"], bounds=f"stacks of 2..{5 if quick else 6} entries over 5 frame names (shared with C05 Ob4)")},
+            timeout=150 if quick else 900,
+            src=open(HL).read() + over,
+            twins=False,
+            select="^loop_[2-5]$" if quick else "^loop_",
+        )
+    except Exception as e:  # noqa: BLE001
+        rep.add(C.Ob("Ob11 loop detector", "E1 CrossHair", [], "", verdict=C.NOT_ENCODABLE, detail=f"{type(e).__name__}: {e}"))
     template_body_pipeline(rep)
     missing_template_link(rep)
     frame_discipline(rep)
